@@ -237,23 +237,53 @@ def codeShapes : List OpShape := [
   M "W.Remove"          "webhooks/webhooks.go:186 (store :194, hooks/scopes :201-202)" [.memWrite, .memWrite]
 ]
 
-/-- Operations whose shape is NOT of the all-or-nothing form in the current
-tree: the in-memory copy is written *before* the store call. -/
-def deviantShapes : List OpShape := [
-  { name := "S.UpdateSettings", src := "host/settings/settings.go:242 (m.settings = s :256, store.UpdateSettings :260)",
-    kind := .single, pre := [.memWrite], post := [], mirrored := true },
-  { name := "P.Update", src := "host/settings/pin/pin.go:227 (m.settings = p :247, store.UpdatePinnedSettings :249)",
-    kind := .single, pre := [.memWrite], post := [], mirrored := true },
+/-- Operations whose shape was NOT of the all-or-nothing form when the engine
+was written (tree d711114), keyed by the name of the repair that changes them:
+the in-memory copy is written *before* the store call (`settings`, `pin`), or
+only after further fallible database calls (`syncdb`). -/
+def deviantKeyed : List (String × OpShape) := [
+  ("settings",
+   { name := "S.UpdateSettings", src := "host/settings/settings.go:242 (m.settings = s :256, store.UpdateSettings :260)",
+     kind := .single, pre := [.memWrite], post := [], mirrored := true }),
+  ("pin",
+   { name := "P.Update", src := "host/settings/pin/pin.go:227 (m.settings = p :247, store.UpdatePinnedSettings :249)",
+     kind := .single, pre := [.memWrite], post := [], mirrored := true }),
   -- syncDB: the batch commits (update.go:54-82), then three ProcessActions calls that read and may write the
   -- database (:78-84, each returns early on error), and only then `m.index = index` (:86-88)
-  { name := "I.SyncDB", src := "index/update.go:25 (UpdateChainState :54, ProcessActions :78-84, m.index = index :87)",
-    kind := .indexer, pre := [], post := [.beginTx, .stmt, .commit, .memWrite], mirrored := true }
+  ("syncdb",
+   { name := "I.SyncDB", src := "index/update.go:25 (UpdateChainState :54, ProcessActions :78-84, m.index = index :87)",
+     kind := .indexer, pre := [], post := [.beginTx, .stmt, .commit, .memWrite], mirrored := true })
 ]
 
-def findShape (name : String) : Option OpShape :=
-  match codeShapes.find? (·.name == name) with
+def deviantShapes : List OpShape := deviantKeyed.map (·.2)
+
+/-- The same operations after the repairs (known-findings.d/txn-fix-{2,3,4}):
+store call first, then the copy; syncDB moves its tip whether or not the
+follow-up actions fail, so their failure no longer stands between the commit
+and the mirror write (they are operations of their own whose error is
+reported afterwards). -/
+def repairedShapes : List (String × OpShape) := [
+  ("settings", M "S.UpdateSettings" "host/settings/settings.go UpdateSettings (store.UpdateSettings, then m.settings = s)" [.memWrite]),
+  ("pin",      M "P.Update"         "host/settings/pin/pin.go Update (store.UpdatePinnedSettings, then m.settings = p)" [.memWrite]),
+  ("syncdb",
+   { name := "I.SyncDB", src := "index/update.go syncDB (UpdateChainState, actions with their error kept, m.index = index, return the error)",
+     kind := .indexer, pre := [], post := [.memWrite], mirrored := true })
+]
+
+/-- The table for a tree in which the repairs named in `fixed` have been made
+(`fixed` comes from the check's configuration, `driver_args` in lib/props.d). -/
+def shapeTable (fixed : List String) : List OpShape :=
+  codeShapes ++ (repairedShapes.filter fun p => fixed.contains p.1).map (·.2)
+
+def deviantTable (fixed : List String) : List OpShape :=
+  (deviantKeyed.filter fun p => !fixed.contains p.1).map (·.2)
+
+def findShapeIn (fixed : List String) (name : String) : Option OpShape :=
+  match (shapeTable fixed).find? (·.name == name) with
   | some o => some o
-  | none => deviantShapes.find? (·.name == name)
+  | none => (deviantTable fixed).find? (·.name == name)
+
+def findShape (name : String) : Option OpShape := findShapeIn [] name
 
 /-- the full step list of a table entry, for `n` statements in a single
 transaction resp. `ns` statements per batch -/
@@ -492,6 +522,13 @@ def codeCtors : List Ctor := [
   { name := "accounts.NewManager", src := "host/accounts/accounts.go:186 (empty map; balances are read through)", loads := true, writes := [] },
   { name := "sqlite.OpenDatabase", src := "persist/sqlite/store.go:319, init.go:59 (version = target: nothing to do)", loads := true, writes := [] }
 ]
+
+/-- the constructor facts for a tree in which the repairs named in `fixed` have been made
+(`webhooks`: known-findings.d/txn-fix-1) -/
+def webhooksCtorOf (fixed : List String) : Ctor := { webhooksCtor with loads := fixed.contains "webhooks" }
+
+def ctorTable (fixed : List String) : List Ctor :=
+  codeCtors.map fun c => if c.name == "webhooks.NewManager" then webhooksCtorOf fixed else c
 
 /-- a constructor may only write `SetAvailable` (volume files found / not found) -/
 def ctorReadOnly (c : Ctor) : Bool := c.writes.all (· == "SetAvailable")
